@@ -22,13 +22,30 @@ def gen(ctx):
             pairs.append([mutate(rng, base), mutate(rng, base)])
         elif k < 0.5:
             pairs.append([rng.choice(U3), rng.choice(U3)])
-        elif k < 0.85:
+        elif k < 0.7:
             base = random_sig(rng, 'abcde', 5)
             triples.append([mutate(rng, base) for _ in range(3)])
+        elif k < 0.85:
+            # differently named positionals at some slots (still role-consistent when
+            # the renamed names are not shared)
+            base = random_sig(rng, 'abcd', 4)
+            triples.append([rename(rng, mutate(rng, base), j) for j in range(3)])
         else:
             triples.append([rng.choice(U3) for _ in range(3)])
     sigs = U2 + (rng.sample(U3, 400) if ctx.quick else U3) + [random_sig(rng, 'abcde', 5, meta=True) for _ in range(300)]
     return pairs, triples, sigs
+
+
+def rename(rng, ps, j):
+    """rename one positional-or-keyword parameter to a name private to input j"""
+    idx = [i for i, p in enumerate(ps) if p[1] == 'PK']
+    if not idx or rng.random() < 0.4:
+        return ps
+    i = rng.choice(idx)
+    new = id_of_name('fgh'[j])
+    if new in {p[0] for p in ps}:
+        return ps
+    return ps[:i] + [(new,) + tuple(ps[i][1:])] + ps[i + 1:]
 
 
 def decide_exact(triples):
